@@ -2,7 +2,8 @@
 
 stdin : ndjson {"id", "file", "doc"}          argv[1]: directory holding the published schemas
 stdout: ndjson {"id", "accept", "class", "keys": [{"at": [...], "key": k}], "msg"}
-class: ok | key (every error is an additionalProperties error) | other
+class: ok | key (every error is an additionalProperties error) | structure (the other errors are about which keys are
+       present together: minProperties, maxProperties, required, oneOf, ...) | value (anything else: types, enums, ...)
 """
 import json
 import os
@@ -10,26 +11,33 @@ import sys
 
 import jsonschema
 
+STRUCTURE = {"minProperties", "maxProperties", "required", "oneOf", "anyOf", "allOf", "not", "dependentRequired", "dependentSchemas",
+             "dependencies", "propertyNames", "patternProperties", "if", "then", "else", "unevaluatedProperties"}
+
 FILES = {"pipeline": "pipeline.json", "compiler": "compiler_passes.json", "veneers": "veneers.json"}
 
 
 def main():
     d = sys.argv[1]
     validators = {}
+    defs = {}
     for f, fn in FILES.items():
         sch = json.load(open(os.path.join(d, fn)))
         cls = jsonschema.validators.validator_for(sch, default=jsonschema.Draft202012Validator)
         cls.check_schema(sch)
         validators[f] = cls(sch)
+        defs[f] = {id(v): k for k, v in (sch.get("$defs") or {}).items()}
     out = sys.stdout
     for line in sys.stdin:
         r = json.loads(line)
         errs = list(validators[r["file"]].iter_errors(r["doc"]))
         if not errs:
-            out.write(json.dumps({"id": r["id"], "accept": True, "class": "ok", "keys": [], "msg": ""}) + "\n")
+            out.write(json.dumps({"id": r["id"], "accept": True, "class": "ok", "keys": [], "keywords": [], "msg": ""}) + "\n")
             continue
         keys = []
         other = []
+        kinds = set()
+        where = []
         for e in errs:
             if e.validator == "additionalProperties" and isinstance(e.instance, dict):
                 props = set((e.schema.get("properties") or {}).keys())
@@ -37,8 +45,13 @@ def main():
                 for k in sorted(set(e.instance) - props):
                     keys.append({"at": at, "key": k})
             else:
+                kinds.add(e.validator)
+                # the definition the failing keyword sits in (identity of the sub-schema object), "#" for inline schemas
+                name = defs[r["file"]].get(id(e.schema), "#")
+                where.append("%s:%s" % (e.validator, name))
                 other.append("%s at /%s: %s" % (e.validator, "/".join(str(p) for p in e.absolute_path), e.message[:200]))
-        out.write(json.dumps({"id": r["id"], "accept": False, "class": "other" if other else "key", "keys": keys,
+        out.write(json.dumps({"id": r["id"], "accept": False, "class": ("key" if not other else "structure" if kinds <= STRUCTURE else "value"),
+                              "keys": keys, "keywords": sorted(set(where)),
                               "msg": "; ".join(other)[:600] if other else errs[0].message[:300]}) + "\n")
 
 
